@@ -112,7 +112,7 @@ func c27Scenario(name string, weak bool) *explore.Scenario {
 		Name: name,
 		Run: func(x *explore.X) (r explore.Result) {
 			if weak {
-				tls.EnableWeakCiphers() // idempotent, process-global
+				weakOnce.Do(tls.EnableWeakCiphers) // process-global and not safe to call while other goroutines use the suite table: once, before any execution of this scenario goes on
 			}
 			ref := refSuiteVersions(weak)
 			hi := x.Choose("idhigh", 256)
